@@ -55,7 +55,7 @@ try:
     meta["checks"] = results
     meta["detected"] = any(r["exit"] == 1 for r in results.values())
 finally:
-    subprocess.run("git -C /repo worktree remove --force %s; rm -rf /verif/.work/shadow-*%s*" % (wt, ""), shell=True)
+    subprocess.run("git -C /repo worktree remove --force %s" % wt, shell=True)
     # shadow dirs are keyed by a hash of the path; remove the ones for this worktree
     import hashlib
     tag = hashlib.sha1(wt.encode()).hexdigest()[:10]
